@@ -18,7 +18,7 @@ RULE = ("cases = (seeded program, position, tool in {wrap-in-dbg, add-type-annot
         "every expression; annotate positions = every let name, parameter name and function name of a program printed "
         "WITHOUT annotations; distinct key = (tool, expression kind or binder kind, rendered type shape, tool outcome)")
 ASSUME = ["a refusal (exit 10) is not a violation", "dbg lines are recognised as stderr lines that are not Exception/Error lines"]
-BATCH = 2
+BATCH = 1
 FLOOR = {"quick": 20, "thorough": 40}
 BUDGET = {"quick": 45, "thorough": 840}
 
@@ -69,8 +69,8 @@ def run_wrap(case, sc):
         return {"status": "inconclusive", "key": None, "detail": {"base": base.brief()}}
     rng = random.Random(case["seed"])
     nodes = [(e, st, en) for e, st, en in p.nodes if e["k"] != "lambda" or True]
-    if len(nodes) > 25:
-        nodes = rng.sample(nodes, 25)
+    if len(nodes) > 8:
+        nodes = rng.sample(nodes, 8)
     keys = set()
     for e, st, en in nodes:
         sel = (st, en) if rng.random() < 0.7 else (st, st)
@@ -130,8 +130,8 @@ def run_annotate(case, sc):
         st = src.find("fun %s(" % f["name"]) + 4
         pos.append(("return", st, st + len(f["name"]), f["ret"]))
     rng = random.Random(case["seed"])
-    if len(pos) > 20:
-        pos = rng.sample(pos, 20)
+    if len(pos) > 8:
+        pos = rng.sample(pos, 8)
     keys = set()
     for kind, st, en, ty in pos:
         r = core.run_garden(["reftest-add-type-annotation", path, str(st), str(en)], timeout=30, cwd=sc.dir)
